@@ -112,3 +112,28 @@ Proof.
   - apply (H 0%nat); reflexivity.
   - apply IH; [congruence|]. intros i x y Hx Hy. apply (H (S i)); assumption.
 Qed.
+
+Lemma firstn_app_exact {A} (l1 l2 : list A) n : length l1 = n -> firstn n (l1 ++ l2) = l1.
+Proof. intros <-. rewrite firstn_app, Nat.sub_diag, firstn_all. cbn [firstn]. apply app_nil_r. Qed.
+
+Lemma skipn_app_exact {A} (l1 l2 : list A) n : length l1 = n -> skipn n (l1 ++ l2) = l2.
+Proof. intros <-. rewrite skipn_app, Nat.sub_diag, skipn_all. reflexivity. Qed.
+
+Lemma chunks_aux_spec {A} fuel n : forall (l : list A) g,
+  chunks_aux fuel n l = Some g -> Forall (fun c => length c = n) g /\ concat g = l.
+Proof.
+  induction fuel as [|fuel IH]; intros l g H.
+  - destruct l; cbn in H; [|discriminate]. injection H as <-. split; [constructor|reflexivity].
+  - destruct l as [|a l']; [cbn in H; injection H as <-; split; [constructor|reflexivity]|].
+    remember (a :: l') as l eqn:El.
+    assert (Hstep : chunks_aux (S fuel) n l =
+                    if length l <? n then None
+                    else match chunks_aux fuel n (skipn n l) with
+                         | Some r => Some (firstn n l :: r) | None => None end).
+    { rewrite El. reflexivity. }
+    rewrite Hstep in H. destruct (Nat.ltb_spec (length l) n) as [|Hge]; [discriminate|].
+    destruct (chunks_aux fuel n (skipn n l)) as [r|] eqn:E; [|discriminate]. injection H as <-.
+    destruct (IH _ _ E) as (Hall & Hcat). split.
+    + constructor; [apply firstn_length_le; exact Hge|exact Hall].
+    + cbn [concat]. rewrite Hcat. apply firstn_skipn.
+Qed.
